@@ -1,7 +1,7 @@
 import SigModel.Driver.Loop
 import SigModel.Spec.ShapesClient
 
-/-! Driver for C10: ops `world mcu=0|1`, `state <name>`, `msg <doc> <pad> <k=v shape tokens…>`. -/
+/-! Driver for C10: ops `world mcu=0|1|2` (1 = the repository's TestMCU, 2 = the real Janus client on a stand-in gateway), `state <name>`, `msg <doc> <pad> <k=v shape tokens…>`. -/
 namespace SigModel.Driver.C10
 open SigModel.Proto SigModel.ShapesClient
 
@@ -150,7 +150,7 @@ structure St where
 def step (st : St) (op impl : List String) : St × String × String :=
   match op with
   | ["world", mcu] =>
-    ({ model := { ShapesClient.St.init with world := { mcu := mcu == "mcu=1", transient := [], virt := [] } } }, "ok", "ok")
+    ({ model := { ShapesClient.St.init with world := { mcu := mcu == "mcu=1" || mcu == "mcu=2", transient := [], virt := [] } } }, "ok", "ok")
   | ["state", name] =>
     match sessOf name with
     | some c => ({ model := { st.model with conn := c, dialoutState := name == "dialout",
